@@ -24,7 +24,7 @@ func TestMain(m *testing.M) {
 func TestReplay(t *testing.T) { props.ReplayMain(t, *replayFile) }
 
 var faultKindsSSH = []string{"error", "garbage", "warnerror", "badecho", "close", "stall"}
-var faultKindsHTTP = []string{"http500", "http503", "http403", "http500-empty", "http401-empty", "malformed", "status-error", "close", "stall"}
+var faultKindsHTTP = []string{"http500", "http503", "http403", "http500-empty", "http401-empty", "malformed", "status-error", "close", "truncated", "stall"}
 
 func drawFault(rt *rapid.T, fam string, maxPos int, allowStall bool) FaultSpec {
 	kinds := faultKindsSSH
@@ -177,26 +177,34 @@ func TestC17(t *testing.T) {
 	ev := evid.New("C17", ruleC17)
 	props.Finish(t, ev)
 	rapid.Check(t, func(rt *rapid.T) {
+		// The property names "transport errors whose messages embed the
+		// request URL": in a quarter of the cases an HTTP family is taken
+		// and the connection is closed on one of the first requests (key
+		// generation / session creation carry the password), or a later
+		// answer (those requests carry key or token) is cut off inside
+		// its body.
+		special := rapid.IntRange(0, 7).Draw(rt, "special")
 		fam := rapid.SampledFrom(families).Draw(rt, "family")
+		if special <= 1 {
+			fam = rapid.SampledFrom([]string{"panos", "nsx"}).Draw(rt, "httpFamily")
+		}
 		sc := genBase(rt, fam)
 		sc.Front = rapid.SampledFrom([]string{"drc", "do-approve"}).Draw(rt, "front")
 		sc.Verb = rapid.SampledFrom([]string{"approve", "compare"}).Draw(rt, "verb")
 		sc.Password = drawSecret(rt, "pw")
 		sc.APIKey = drawSecret(rt, "key")
 		sc.Token = drawSecret(rt, "tok")
-		if rapid.IntRange(0, 3).Draw(rt, "withFault") != 0 {
+		switch {
+		case special == 0:
+			sc.Faults = []FaultSpec{{Pos: rapid.SampledFrom([]int{0, 0, 0, 1, 2}).Draw(rt, "transportPos"), Kind: "close"}}
+		case special == 1:
+			sc.Faults = []FaultSpec{{Pos: rapid.SampledFrom([]int{1, 1, 2, 2, 3, 4, 6, 9}).Draw(rt, "bodyCutPos"), Kind: "truncated"}}
+		case rapid.IntRange(0, 3).Draw(rt, "withFault") != 0:
 			max := 30
 			if rapid.Bool().Draw(rt, "early") {
 				max = 4
 			}
 			sc.Faults = []FaultSpec{drawFault(rt, fam, max, rapid.IntRange(0, 9).Draw(rt, "stallOK") == 0)}
-			// The property names "transport errors whose messages embed the
-			// request URL": in half of the HTTP scenarios with a fault the
-			// connection is closed on one of the first requests (key
-			// generation / session creation carry the password).
-			if (fam == "panos" || fam == "nsx") && rapid.Bool().Draw(rt, "transportEarly") {
-				sc.Faults = []FaultSpec{{Pos: rapid.SampledFrom([]int{0, 0, 0, 1, 2}).Draw(rt, "transportPos"), Kind: "close"}}
-			}
 		}
 		c := sc.Case("C17")
 		props.Judge(rt, ev, oracleC17, c, func() any { return sc })
